@@ -11,12 +11,16 @@ sees even re-assignments of the list. Engine writes go in place or to fresh arra
 
 `Cfg.fastpathRemote` (C04a): as written the fast path is taken for remote writes as well. Off = the candidate
 repair of appendix C (`restricted := remoteWrite && r.data != nil && SupportsPartialWrite()`).
+`Cfg.fastpathAdopts` (C11b): as written the fast path stores the caller's pointer. Off = the repair
+`fixes/c04/04-…`: the store keeps a one-level copy of the value (a struct of its own sharing the array) and hands
+the caller's own pointer back.
 -/
 namespace Spine.Heap
 open Spine
 
 structure Cfg where
   fastpathRemote : Bool := true
+  fastpathAdopts : Bool := true
   u : UCfg := {}
 deriving Repr, DecidableEq, Inhabited
 
@@ -123,7 +127,8 @@ def updateData (c : Cfg) (sh : Shape) (h : H) (remote persist : Bool) (nw : List
   let h0 := (h.allocValue nw).1
   let inp := (h.allocValue nw).2
   if fastPath c h0 remote persist fp fd then
-    ({ h0 with store := some inp }, .done true inp (some inp))
+    if c.fastpathAdopts then ({ h0 with store := some inp }, .done true inp (some inp))
+    else ({ (h0.allocStruct (h0.field inp)).1 with store := some (h0.allocStruct (h0.field inp)).2 }, .done true inp (some inp))
   else engine c sh h0 remote persist nw fp.toOpt fd.toOpt inp
 
 /-- shorthand used by the witnesses: a local, persisting, filter-less update (`SetData`) -/
